@@ -143,6 +143,10 @@ Section JetLift.
                           | None => None
                           | Some l => Some (concat l)
                           end).
+  (* an unlifted residual as a stack part: its wrapper unpacks exactly k coordinates *)
+  Definition plain_part (jf : jetfun) : resfun :=
+    mkRF (jf_k jf)
+         (fun coords t => match jf_eval jf coords t with None => None | Some x => Some [x] end).
   (* a lifted residual as a stack part *)
   Definition lifted_part (jf : jetfun) (lift_by : Z) : resfun :=
     mkRF (Z.to_nat (res_lift_signature (jf_k jf) lift_by)) (lift jf lift_by).
